@@ -5,7 +5,7 @@ From Coq Require Import List NArith ZArith Arith Bool.
 From Coq Require Extraction.
 From Coq Require Import ExtrOcamlBasic.
 From Chiri Require Import Base.Bytes Base.Res Model.Tokenizer Model.TagParser Model.TreeParser
-     Model.Chrono Model.Finders Model.Markers Model.Format Model.Clean Model.ListRender Model.Cli.
+     Model.Chrono Model.Finders Model.Markers Model.Format Model.Clean Model.ListRender Model.Cli Model.Current.
 
 Extraction "../ocaml/model.ml"
   wf_utf8 tokenize parse_token parse_tree front_end
@@ -15,4 +15,4 @@ Extraction "../ocaml/model.ml"
   format_block block_indent_remover format_ranges format clean
   find_next_lb find_prev_lb find_next_char
   list_pretty list_json list_all_pretty list_all_json build_item
-  run default_args.
+  run run_text default_args parse_current.
